@@ -425,6 +425,51 @@ def make_schedules(rng, n, bounds, count, max_chunks=70000):
     return scheds + extra
 
 
+
+MINIMAL = [
+    {'gen': 'qcow2', 'params': {'total': 512}}, {'gen': 'qcow2', 'params': {'total': 700, 'version': 2}},
+    {'gen': 'vhd', 'params': {'total': 512}}, {'gen': 'vdi', 'params': {'total': 512}}, {'gen': 'qed', 'params': {'total': 512}},
+    {'gen': 'gpt', 'params': {'total': 512}}, {'gen': 'mbr', 'params': {'total': 600}},
+    {'gen': 'luks', 'params': {'payload': 1, 'total': 700}},
+    {'gen': 'vmdk', 'params': {'desc_num': 1, 'min_total': 0, 'extents': ['RW 1 SPARSE "d"']}},
+    {'gen': 'vmdk', 'params': {'desc_num': 1, 'min_total': 0, 'footer': True, 'extents': ['RW 1 SPARSE "d"']}},
+    {'gen': 'vmdk', 'params': {'desc_num': 2, 'min_total': 0, 'footer': True}},
+    {'gen': 'vmdk', 'params': {'desc_num': 1, 'min_total': 0, 'footer': True, 'footer_pert': 'fver', 'extents': ['RW 1 SPARSE "d"']}},
+    {'gen': 'vmdk', 'params': {'desc_num': 1, 'min_total': 0, 'ver': 7, 'extents': ['RW 1 SPARSE "d"']}},
+    {'gen': 'raw', 'params': {'kind': 'random', 'total': 900, 'seed': 3}},
+]
+
+
+def run_every_cut(ctx, idx0):
+    """Small images x EVERY single cut position (and every cut position followed by an empty chunk), per inspector and
+    through the wrapper: the 'every cut' end of the schedule quantifier, exhaustive for streams of a few hundred bytes."""
+    idx = idx0
+    F = sl.fi()
+    specs = list(MINIMAL)
+    if not ctx.quick:
+        specs.append({'gen': 'iso', 'params': {'total': 34816}})
+        specs.append({'gen': 'vmdk', 'params': {'desc_num': 3, 'min_total': 4096, 'footer': True}})
+    for spec in specs:
+        data, truth = ig.build(spec)
+        n = len(data)
+        name = ig.INSPECTOR_OF[spec['gen']]
+        step = 1 if (n <= 3000 or not ctx.quick) else 7
+        positions = list(range(1, n, step))
+        block = 64
+        for b0 in range(0, len(positions), block):
+            idx += 1
+            if not ctx.mine(idx):
+                continue
+            cuts_block = positions[b0:b0 + block]
+            scheds = [['giant', [], [], False]] + [['every-cut', [c], [], False] for c in cuts_block]
+            scheds += [['every-cut+empty', [c], [1], False] for c in cuts_block[::4]]
+            case = {'kind': 'stream', 'spec': spec, 'inspectors': [name], 'schedules': scheds,
+                    'wrapper': n <= 3000, 'structured': True}
+            ctx.h('format x stream class', '%s/every-cut' % spec['gen'])
+            eval_stream(ctx, case)
+    ctx.exhaustive['every single cut position of the minimal image of each format (%d layouts)' % len(specs)] = True
+    return idx
+
 CANARIES = [
     # F1: text descriptor; a path-naming extent after the first 512 bytes
     ('F1', {'gen': 'vmdk_text', 'params': {'extra': [['# ' + 'x' * 70, True]] * 8 + [['RW 2048 FLAT "/etc/passwd" 0', False]]}},
@@ -449,6 +494,7 @@ def expand(cuts, n):
 def run(ctx):
     run_engine(ctx)
     run_chain(ctx, 10 ** 9)
+    run_every_cut(ctx, 2 * 10 ** 9)
     if ctx.shard == 0:
         for fid, spec, insps, scheds, wrap in CANARIES:
             data, _t = ig.build(spec)
